@@ -398,12 +398,16 @@ def callback_worlds(p, f) -> dict:  # noqa: ANN001
     if not chain or len(chain) != len(inner):
         raise AnalysisIncomplete(f'{f.short}: expected one nested callback')
     out = {}
+    # locals of the enclosing method that hold a tensor's shape are never None (A3)
+    never_none = {norm(n.targets[0]) for n in p.nodes(f) if isinstance(n, ast.Assign) and len(n.targets) == 1 and isinstance(n.targets[0], ast.Name)
+                  and ((isinstance(n.value, ast.Call) and isinstance(n.value.func, ast.Attribute) and n.value.func.attr == 'size' and not n.value.args)
+                       or (isinstance(n.value, ast.Attribute) and n.value.attr == 'shape'))}
     for avg in (True, False):
         for sym in (True, False):
             res, last = 'VALUE', None
             for h in chain:
                 prm = h.params[0] if h.params else 'future_'
-                cb = symexec.SymCB(lambda c: None, None, None, None, Facts({}, None, {'average': avg, 'symmetric': sym}))
+                cb = symexec.SymCB(lambda c: None, None, None, None, Facts({}, (lambda t: False if t in never_none else None), {'average': avg, 'symmetric': sym}))
                 _fin, exits = symexec.run(h, cb, {})
                 rets = [(s_, r) for s_, r in exits if isinstance(r, ast.Return) and r.value is not None]
                 if len(rets) != 1:
